@@ -14,11 +14,13 @@ CONSTANTS
  InlineData = FALSE
  Conc = 3
  Probes = FALSE
- Exts = {TRUE, FALSE}
+ Exts = {0, 1, 2}
  KeepSlots = FALSE
  TarUnverified = FALSE
  MTs = {TRUE}
  DigestHdrs = {"served"}
+ Sts = {"std", "alt"}
+ DropKinds = {"ueof", "reset"}
 INIT Init
 NEXT Next
 VIEW View
